@@ -232,12 +232,22 @@ def r4_resolution_at_submission(ctx: Context) -> None:
             if inner:
                 il = inner[0]
                 first = il.body[0] if il.body else None
-                brk = isinstance(first, ast.If) and norm(first.test).endswith(".terminal") and any(isinstance(x, ast.Break) for x in first.body)
+                brk = isinstance(first, ast.If) and norm(first.test) == f"{norm(il.target)}.terminal" and any(isinstance(x, ast.Break) for x in first.body)
+                if isinstance(first, ast.If) and norm(first.test).endswith(".terminal") and norm(first.test) != f"{norm(il.target)}.terminal":
+                    why = f"the descent stops on `{norm(first.test)}`, not on the visited descendant `{norm(il.target)}`: it never stops at the join and zeroes everything after it"
+                # the descendant whose probability is zeroed is the visited one
+                zs = [c for c in calls_in(il) if call_name(c) == "update_probability"]
+                for zc in zs:
+                    base = norm(zc.func.value)
+                    defs = [a for a in ast.walk(il) if isinstance(a, ast.Assign) and norm(a.targets[0]) == base]
+                    if defs and norm(il.target) not in norm(defs[0].value):
+                        brk = False
+                        why = f"`{base}` (zeroed) is not derived from the visited descendant `{norm(il.target)}`"
                 zero_desc = any(call_name(c) == "update_probability" and lin.lin_of(c.args[0]).const == 0 for c in calls_in(il))
                 starts = "breadth_first(" in norm(il.iter) and norm(lp.target) in norm(il.iter)
                 # the zeroing happens after the terminal test in the body (terminal itself is excluded)
                 prop = brk and zero_desc and starts
-                if not brk:
+                if not brk and why == "update loop not found":
                     why = "the descent does not stop at the first terminal job (the join would be zeroed)"
                 elif not zero_desc:
                     why = "descendants of the untaken child keep their probability"
@@ -285,3 +295,5 @@ def run(ctx: Context) -> None:
     ctx.isolate(c02.r4_release_discipline)
     ctx.isolate(r4_resolution_at_submission)
     ctx.isolate(r5_resolve_completed)
+    from . import c06
+    ctx.isolate(c06.r9_cascade_exemptions, _alias={"C06.R9": "C07.R6"})
